@@ -281,6 +281,8 @@ def run_oracle(c):
                     if yr != yr0 and 'clipped' not in cls[k]:
                         cls[k] = cls[k] + ['clipped']
                     d = abs(yq - xq)
+                    if d > twopi - d and 'norm-wrap' not in cls[k]:
+                        cls[k] = cls[k] + ['norm-wrap']          # the 2 pi - diff branch of the norm is taken
                     norm = max(norm, min(d, twopi - d), abs(yr - xr))
                     new.append((yq, yr))
                 x = new
@@ -534,6 +536,30 @@ def gen_cases(chk):
                 if path == 'cu' and size[1] < 4:
                     continue
                 cases.append(gen_base(rng, scheme, path, kind, size, full))
+    # implicit cases in which successive iterates straddle theta = 0 (the `2*pi - diff` branch of the norm):
+    # searched with the direct oracle on the node theta = 0
+    for path in ('nu', 'cu'):
+        found = 0
+        for _ in range(80 if not full else 240):
+            c = gen_base(rng, 'impl', path, 'rand', (6, 6), False)
+            if path == 'nu' and c['sp']['pq'] + c['sp']['pr'] > 4:
+                continue
+            zero = [q for q in c['sp']['gq'] if q == 0]
+            if not zero:
+                continue
+            c['qPts'] = zero
+            c['rPts'] = list(c['sp']['gr'])
+            c['tol'] = F(1, 100)
+            c['fuel'] = 2
+            lifted(c['PI'])
+            orc, cls = run_oracle(c)
+            c.pop('_stage1', None)
+            if cls and any('norm-wrap' in x for x in cls):
+                c['constructed'] = 'norm-wrap'
+                cases.append(c)
+                found += 1
+                if found >= (2 if not full else 6):
+                    break
     return cases, rng
 
 
